@@ -24,7 +24,7 @@ BUDGET = {
     # prop: (quick runs, thorough runs)
     "C01": (5000, 100000), "C02": (5000, 100000), "C03": (4000, 80000), "C04": (4000, 80000),
     "C05": (5000, 100000), "C06": (2400, 40000), "C07": (4000, 60000), "C08": (2000, 30000),
-    "C09": (240, 3000), "C10": (600, 8000), "C11": (6000, 100000), "C16": (600, 8000),
+    "C09": (240, 3000), "C10": (3000, 50000), "C11": (6000, 100000), "C16": (600, 8000),
     "C17": (160, 1600), "C18": (4000, 60000), "C19": (3000, 50000),
 }
 
